@@ -107,7 +107,19 @@ fn gen_sc(rng: &mut Rng, flavour: u8) -> Sc {
         p_glob: (2, 3),
         poison_dotfile: rng.chance(1, 4),
     };
-    let world = gen::split_world(rng, entries, crlf, &split);
+    let mut world = gen::split_world(rng, entries, crlf, &split);
+    if flavour == 2 && rng.chance(1, 5) {
+        // text that is not ledger syntax at the end of some file: whatever comes before it in load
+        // order is judged first (the model gives up only when it reaches the text)
+        let fi = rng.usize(world.files.len());
+        let junk: &[&str] = *rng.pick(&[
+            &["2024/03/30 junk", "    Assets:Cash   1 USD USD )("][..],
+            &["this is not a ledger entry"][..],
+            &["2024/03/30 junk", "    Assets:Cash   (1 USD"][..],
+            &["account"][..],
+        ]);
+        world.files[fi].push(Entry::Raw(junk.iter().map(|s| s.to_string()).collect()));
+    }
     let n = 2 + rng.usize(3);
     let procs = (0..n).map(|_| random_proc(rng, false)).collect();
     // date ranges: boundaries on txn dates, before, after, empty, adjacent triples
@@ -248,6 +260,25 @@ impl Check for C02 {
             match rel {
                 Relation::BothAccept | Relation::MayRejected { .. } => {}
                 Relation::DontCare(r) => out.count(&format!("dc.{}", r)),
+                Relation::OkaneLoadErr
+                    if matches!(&books.outcome, Outcome::Rejected { kind: RejectKind::Assertion { .. }, .. })
+                        && matches!(&err, Some(ApiErr::Load { kind, .. }) if kind == "parse") =>
+                {
+                    // every entry up to the false assertion is well-formed (the model walked them);
+                    // text that does not parse lies behind it in load order
+                    out.violate(
+                        "C02/wrong-posting-or-balance-reported",
+                        "a syntax error behind the false assertion is reported instead of it",
+                        format!(
+                            "the model rejects entry #{} for its false assertion; okane reports: {}",
+                            match &books.outcome {
+                                Outcome::Rejected { flat, .. } => *flat,
+                                _ => 0,
+                            },
+                            err.as_ref().map(|e| e.rendered().to_string()).unwrap_or_default()
+                        ),
+                    );
+                }
                 Relation::OkaneLoadErr | Relation::Unlocated => out.count("foreign.load-or-location"),
                 Relation::OkaneAccepted { flat } => {
                     if let Outcome::Rejected {
